@@ -183,13 +183,54 @@ def _make_scenario(sc):
     return root
 
 
+ROLE_EVENT = {
+    'SupPut': ('s', 'QPut'), 'SupEndStart': ('s', None), 'SupTakeSpare': ('s', 'QGet'), 'SupApply': ('s', 'QPut'),
+    'SupMarker': ('s', 'QPut'), 'N1': ('c', 'Full'), 'N2': ('c', 'QGet'), 'N4': ('c', 'Full'), 'PutBack': ('c', 'QPut'),
+    'N5': ('c', 'QGet'), 'N6': ('c', 'QPut'), 'N7': ('c', 'Full'), 'Claim': ('c', 'QGet'),
+    'Renew1': ('r', 'Full'), 'Renew2': ('r', 'QGet'), 'Renew3': ('r', 'RenewDone'),
+}
+
+
+def behaviour_to_item(beh, consts):
+    """A TLC behaviour of IterableQueue -> scenario + steering script (spec -> code leg)."""
+    from mbt.tlc import split_action
+    script, prev = [], beh[0][1]
+    for act, st in beh[1:]:
+        name, args = split_action(act)
+        if name in ROLE_EVENT:
+            kind, ev = ROLE_EVENT[name]
+            role = 'r' if kind == 'r' else f'{kind}{args[0]}'
+            if name == 'Claim' and st['claim'] == prev['claim']:
+                ev = None       # lost the claim: get(timeout) ends with Empty, no event
+            script.append({'role': role, 'ev': ev, 'act': act})
+        prev = st
+    sc = {'m': consts['M'], 'nc': consts['NC'], 'k': consts['K'], 'rounds': consts['Rounds'], 'qbound': consts['QBound']}
+    return {'sc': sc, 'script': script}
+
+
+def _role_of(t):
+    if t.tid == 0:
+        return 'r'
+    if t.name.startswith('sup-'):
+        return 's' + t.name[4:]
+    if t.name.startswith('con-'):
+        return 'c' + t.name[4:]
+    return 'x'
+
+
 def run_job(job):
     from mbt import detsched
     _install()
     traces, hangs, n_exec = [], [], 0
     for item in job['items']:
         sc, seed, strat = item['sc'], item['seed'], item.get('strategy', 'random')
-        if strat == 'pct':
+        guided = None
+        if item.get('script') is not None:
+            guided = detsched.GuidedStrategy(item['script'], _role_of, {}, seed=seed, patience=40)
+            strat = 'guided'
+        if strat == 'guided':
+            st = guided
+        elif strat == 'pct':
             st = detsched.PCTStrategy(seed, depth=3 + seed % 4, est_steps=800, fire=0.2)
         else:
             st = detsched.RandomStrategy(seed, stay=0.3 + 0.6 * ((seed * 7919) % 10) / 10.0, fire=0.25)
@@ -199,6 +240,12 @@ def run_job(job):
         n_exec += 1
         rec = {'id': item['id'], 'p': header(sc), 'ev': strip(res.trace), 'sc': sc, 'seed': seed, 'strategy': strat,
                'status': res.status}
+        if guided is not None:
+            want = [x['ev'] for x in item['script'] if x.get('ev')]
+            got = [e['ev'] for e in rec['ev'] if e['ev'] in ('QPut', 'QGet', 'Full', 'RenewDone')
+                   and not (e.get('who') == 'r' and e.get('role') in ('used', 'spare', 'extra') and e['ev'] != 'Full')]
+            rec['l2'] = {'steps': len(want), 'followed': guided.followed, 'skipped': guided.skipped,
+                         'exact': got[:len(want)] == want}
         if res.status != 'ok' or res.exc is not None:
             rec.update(detail=res.detail, waitmap=res.waitmap, exc=repr(res.exc) if res.exc is not None else None,
                        leftover=res.leftover, thread_errors=res.thread_errors)
